@@ -96,6 +96,10 @@ fn s(x: impl Into<String>) -> J {
     J::Str(x.into())
 }
 
+fn v_push_str(v: &mut Vec<(&'static str, J)>, bytes: &[u8]) {
+    v.push(("str", s(String::from_utf8_lossy(bytes).to_string())));
+}
+
 // ---------------------------------------------------------------- extraction
 
 struct Cx<'tcx> {
@@ -295,7 +299,17 @@ impl<'tcx> Cx<'tcx> {
                     v.push(("promoted", J::Num(uv.promoted.unwrap().index() as i128)));
                 }
             }
-            Const::Ty(..) => {}
+            Const::Ty(_, ct) => {
+                if let Some(val) = ct.try_to_value() {
+                    if let Some(bytes) = val.try_to_raw_bytes(tcx) {
+                        v_push_str(&mut v, bytes);
+                    } else if let Some(i) = val.try_to_leaf() {
+                        if val.ty.is_bool() || val.ty.is_integral() || val.ty.is_char() {
+                            v.push(("int", J::Num(i.to_bits_unchecked() as i128)));
+                        }
+                    }
+                }
+            }
         }
         v.push(("dbg", s(format!("{}", c.const_))));
         J::Obj(v)
